@@ -134,9 +134,15 @@ Definition compaction_inputs (ls : list (list table)) (c : compaction) : list sr
 
 Definition compaction_overlap (ls : list (list table)) (c : compaction) : bool :=
   let all := pick_tables (c_top c) (nth (c_this c) ls []) ++ pick_tables (c_bot c) (nth (c_next c) ls []) in
-  match tables_min_key all, tables_max_key all with
-  | Some lo, Some hi => check_overlap 0 ls (S (c_next c)) lo hi
-  | _, _ => false
+  (* L0 -> L0: the L0 tables left out of the pick may hold older versions and checkOverlap does
+     not look at level 0, so the markers are always kept (fix of finding F1) *)
+  match c_this c, c_next c with
+  | O, O => true
+  | _, _ =>
+    match tables_min_key all, tables_max_key all with
+    | Some lo, Some hi => check_overlap 0 ls (S (c_next c)) lo hi
+    | _, _ => false
+    end
   end.
 
 Definition compaction_output (ls : list (list table)) (c : compaction) : src :=
